@@ -787,7 +787,7 @@ Error BaseBuilder::serialize_to(BaseEmitter* dst) {
 
   Operand_ op_array[Globals::kMaxOpCount];
 
-  do {
+  while (node_) {
     dst->set_inline_comment(node_->inline_comment());
 
     if (node_->is_inst()) {
@@ -857,7 +857,7 @@ Error BaseBuilder::serialize_to(BaseEmitter* dst) {
       break;
     }
     node_ = node_->next();
-  } while (node_);
+  }
 
   return err;
 }
